@@ -40,6 +40,8 @@ package dtls
 //@ ensures f-SessionID: result1 == nil ==> bytesEq(result0.SessionID, s.SessionID)
 //@ ensures f-LocalConnectionID: result1 == nil ==> bytesEq(result0.LocalConnectionID, s.localConnectionID)
 //@ ensures f-RemoteConnectionID: result1 == nil ==> bytesEq(result0.RemoteConnectionID, s.remoteConnectionID)
+//@ ensures f-ConnectionID-lengths: result1 == nil ==> len(result0.LocalConnectionID) == len(s.localConnectionID) && len(result0.RemoteConnectionID) == len(s.remoteConnectionID)
+//@ ensures f-ConnectionID-not-swapped: result1 == nil && len(s.remoteConnectionID) > 0 && len(s.localConnectionID) > 0 ==> result0.RemoteConnectionID[0] == s.remoteConnectionID[0] && result0.LocalConnectionID[0] == s.localConnectionID[0]
 //@ ensures f-RRCNegotiated: result1 == nil ==> result0.RRCNegotiated == s.rrcNegotiated
 //@ ensures f-IsClient: result1 == nil ==> result0.IsClient == s.isClient
 //@ ensures f-NegotiatedProtocol: result1 == nil ==> result0.NegotiatedProtocol == s.NegotiatedProtocol
